@@ -46,3 +46,29 @@ pub fn hmac_sign(header_b64: &str, payload_b64: &str, key_bytes: &[u8]) -> Strin
 pub fn now() -> i64 {
     std::time::SystemTime::now().duration_since(std::time::UNIX_EPOCH).unwrap().as_secs() as i64
 }
+
+/// ASN.1 DER encoding (SEQUENCE of two INTEGERs) of a fixed-width ECDSA signature r || s.
+pub fn ecdsa_der(raw: &[u8]) -> Vec<u8> {
+    fn int(x: &[u8]) -> Vec<u8> {
+        let mut v: Vec<u8> = x.iter().copied().skip_while(|b| *b == 0).collect();
+        if v.is_empty() {
+            v.push(0);
+        }
+        if v[0] & 0x80 != 0 {
+            v.insert(0, 0);
+        }
+        let mut out = vec![0x02, v.len() as u8];
+        out.extend(v);
+        out
+    }
+    let half = raw.len() / 2;
+    let mut body = int(&raw[..half]);
+    body.extend(int(&raw[half..]));
+    let mut out = vec![0x30];
+    if body.len() >= 128 {
+        out.push(0x81);
+    }
+    out.push(body.len() as u8);
+    out.extend(body);
+    out
+}
